@@ -359,6 +359,10 @@ func mk(s Spec, class string, strict bool) shape.Shape {
 			strict = false
 		}
 	}
+	if len(Build(s)) < 245 {
+		// so small that a trailing signature starts inside the first 256 bytes of the file
+		class = "tiny-cabinet-under-245-bytes"
+	}
 	return shape.Shape{Name: s.Name(), Class: class, File: "c.cab", Strict: strict, Source: "generated",
 		Build: func() ([]byte, error) { return Build(s), nil }, Check: check}
 }
